@@ -11,30 +11,35 @@ DRIVER = '''#include "PyImathFixedArray.h"
 using namespace PyImath;
 struct VfOp2 { static int apply (const int &a, const int &b); };   // declared only: an arbitrary pure element operation
 struct VfOp1 { static int apply (const int &a); };
+struct VfVOp { static void apply (int &a, const int &b); };         // in-place element operation (+=, -=, ...)
 typedef FixedArray<int> FA;
 typedef detail::VectorizedOperation2<VfOp2, FA::WritableDirectAccess, FA::ReadOnlyDirectAccess, FA::ReadOnlyDirectAccess> K2dd;
 typedef detail::VectorizedOperation2<VfOp2, FA::WritableDirectAccess, FA::ReadOnlyMaskedAccess, FA::ReadOnlyDirectAccess> K2md;
 typedef detail::VectorizedOperation1<VfOp1, FA::WritableMaskedAccess, FA::ReadOnlyDirectAccess> K1m;
-void use20 (K2dd &a, K2md &b, K1m &c, size_t s, size_t e) { a.execute (s, e); b.execute (s, e); c.execute (s, e); }
+typedef detail::VectorizedVoidOperation1<VfVOp, FA::WritableDirectAccess, FA::ReadOnlyDirectAccess> KV1;
+typedef detail::VectorizedMaskedVoidOperation1<VfVOp, FA::WritableMaskedAccess, FA::ReadOnlyDirectAccess, FA &> KMV1;
+void use20 (K2dd &a, K2md &b, K1m &c, KV1 &d, KMV1 &f, size_t s, size_t e) { a.execute (s, e); b.execute (s, e); c.execute (s, e); d.execute (s, e); f.execute (s, e); }
 '''
 A = "FixedArray<int>::"
 K2DD = "detail::VectorizedOperation2<VfOp2,%sWritableDirectAccess,%sReadOnlyDirectAccess,%sReadOnlyDirectAccess>" % (A, A, A)
 K2MD = "detail::VectorizedOperation2<VfOp2,%sWritableDirectAccess,%sReadOnlyMaskedAccess,%sReadOnlyDirectAccess>" % (A, A, A)
 K1M = "detail::VectorizedOperation1<VfOp1,%sWritableMaskedAccess,%sReadOnlyDirectAccess>" % (A, A)
-ALIASES = {"k2dd_execute": K2DD + "::execute(size_t, size_t)", "k2md_execute": K2MD + "::execute(size_t, size_t)", "k1m_execute": K1M + "::execute(size_t, size_t)",
+KV1 = "detail::VectorizedVoidOperation1<VfVOp,%sWritableDirectAccess,%sReadOnlyDirectAccess>" % (A, A)
+KMV1 = "detail::VectorizedMaskedVoidOperation1<VfVOp,%sWritableMaskedAccess,%sReadOnlyDirectAccess,FixedArray<int> &>" % (A, A)
+ALIASES = {"kv1_execute": KV1 + "::execute(size_t, size_t)", "kmv1_execute": KMV1 + "::execute(size_t, size_t)", "k2dd_execute": K2DD + "::execute(size_t, size_t)", "k2md_execute": K2MD + "::execute(size_t, size_t)", "k1m_execute": K1M + "::execute(size_t, size_t)",
            "match_lengths": "detail::match_lengths(const std::pair<size_t, bool> &, const std::pair<size_t, bool> &)"}
 EXTRACTION = {}
 
 
 def units(tier):
     ef = dict(c19.EXTERN)
-    ef.update({"VfOp2::apply": "cxx2c_vfop2", "VfOp1::apply": "cxx2c_vfop1"})
+    ef.update({"VfOp2::apply": "cxx2c_vfop2", "VfOp1::apply": "cxx2c_vfop1", "VfVOp::apply": "cxx2c_vfvop"})
     ex = extract.run_extraction("c20x", DRIVER, sorted(set(ALIASES.values())), outdir=GEN,
                                 extra_includes=[os.path.join(REPO, "src/python/PyImath"), "/usr/include/python3.11"],
                                 opaque=c19.OPAQUE, extern_funcs=ef, externals=c19.EXTS, diff=False)
     from ..cxx2c import cident
     lines = ["#define F_%s %s" % (a, ex.names[s]) for a, s in ALIASES.items()]
-    lines += ["#define K2dd %s" % cident(K2DD), "#define K2md %s" % cident(K2MD), "#define K1m %s" % cident(K1M)]
+    lines += ["#define K2dd %s" % cident(K2DD), "#define K2md %s" % cident(K2MD), "#define K1m %s" % cident(K1M), "#define KV1 %s" % cident(KV1), "#define KMV1 %s" % cident(KMV1)]
     p = os.path.join(GEN, "c20_names.h")
     txt = "\n".join(lines) + "\n"
     if not os.path.exists(p) or open(p).read() != txt:
@@ -70,6 +75,10 @@ def units(tier):
                        bounded=B if k != "k1m" else B.replace("<= 8", "<= 4"), defines=["NB=4"] if k == "k1m" else [],
                        cbmc_flags=["--unwind", "10", "--no-signed-overflow-check", "--object-bits", "10"],
                        clause="%s: execute(start,end) writes exactly the selected result positions with apply of the corresponding arguments; frame" % what))
+    for k, what, nb in (("kv1", "VectorizedVoidOperation1 (in-place op, direct accessors)", 8), ("kmv1", "VectorizedMaskedVoidOperation1 (in-place op on a masked reference, argument of the unmasked length)", 4)):
+        us.append(Unit("c20." + k, H, "h_" + k, includes=[GEN], backend="cvc5", mode="ABS", functions=[ALIASES[k + "_execute"]], no_checks=True, timeout=900,
+                       bounded=B.replace("<= 8", "<= %d" % nb), defines=["NB=%d" % nb], cbmc_flags=["--unwind", "10", "--no-signed-overflow-check", "--object-bits", "10"],
+                       clause="%s: execute(start,end) updates exactly the selected positions with apply(self, matching argument element); frame" % what))
     us.append(Unit("c20.k2dd.loopcontract", H, "h_k2dd_loop", includes=[GEN], backend="cvc5", mode="ABS", functions=[ALIASES["k2dd_execute"]], no_checks=True, timeout=900,
                    loop_contracts=True, defines=["VF_LOOPCONTRACT"], cbmc_flags=["--no-signed-overflow-check", "--object-bits", "10"],
                    clause="VectorizedOperation2 (direct accessors): loop contract (invariant with ghost index, assigns, decreases) closes the loop for arrays of any length up to 10^6: "
